@@ -369,6 +369,16 @@ def run(ctx):
             ctx.violation(*b)
     ctx.set("single_message_sweep", nmsg * 4)
     ctx.log(f"single-message sweep: {nmsg} record lists x 2 clients x (alone, after refresh)")
+    # acknowledgement numbering across the wrap of the protocol counter: 420 consecutive partial updates per client
+    for kind in ("async", "threaded"):
+        alpha = _ALPHA[kind]
+        hist = tuple([1, 2] * 210)
+        res, end = _job((kind, hist))
+        traces += 1
+        transitions += len(hist)
+        if res:
+            ctx.violation(res[0].replace("|event=", "|long-run|event="), res[1][:400], {"kind": kind, "history": list(hist)})
+    ctx.set("long_run_updates", 840)
     ctx.set("states", len(states))
     ctx.set("transitions", transitions)
     ctx.set("traces_validated_against_impl", traces)
